@@ -292,11 +292,16 @@ static void jit_runtime_cases() {
 static void jit_addrtab_cases() {
   vh::Ctx& c = vh::ctx();
   static const int kTail[] = {4, 8, 16, 40, 52, 56, 60, 64, 100, 4000};
+  for (int rtopt = 0; rtopt < 3; rtopt++)   // 0 default runtime, 1 dual mapping (rx != rw), 2 fill pattern (allocator memory is not zero)
   for (int near_target = 0; near_target < 2; near_target++) for (int with_tail = 0; with_tail < 2; with_tail++) for (int tail : kTail) for (int ncalls = 1; ncalls <= 2; ncalls++) {
     if (!with_tail && tail != 4) continue;
-    JitRuntime rt;
+    if (rtopt && tail != 4 && tail != 60 && tail != 100) continue;
+    JitAllocator::CreateParams params;
+    params.options = rtopt == 1 ? JitAllocatorOptions::kUseDualMapping : rtopt == 2 ? JitAllocatorOptions::kFillUnusedMemory : JitAllocatorOptions::kNone;
+    JitRuntime rt(&params);
+    bool with_bss = true;
     std::string rp = "harness=c04_reloc\njit=100\n";   // replay runs the whole (small) family
-    char desc[160]; snprintf(desc, sizeof desc, "near=%d tail_section=%d tail=%d calls=%d", near_target, with_tail, tail, ncalls);
+    char desc[160]; snprintf(desc, sizeof desc, "runtime=%s near=%d tail_section=%d tail=%d calls=%d", rtopt == 1 ? "dual-mapping" : rtopt == 2 ? "fill" : "default", near_target, with_tail, tail, ncalls);
     int (*helper)() = nullptr;
     { CodeHolder h; h.init(rt.environment(), rt.cpu_features()); x86::Assembler a(&h); a.mov(x86::eax, 7); a.ret(); if (rt.add(&helper, &h) != Error::kOk) { c.violation("reloc:jit:add-failed", "JitRuntime::add of the helper failed", rp); continue; } }
     uint64_t target = near_target ? uint64_t(uintptr_t(helper)) : 0x00007F0012345000ull;
@@ -316,6 +321,13 @@ static void jit_addrtab_cases() {
         a.section(t);
         a.bind(tl); a.embed_uint32(1000);
         for (int i = 4; i + 4 <= tail; i += 4) a.embed_uint32(0xA5000000u + uint32_t(i));
+        a.align(AlignMode::kData, 8);
+        a.embed_label(tl, 8);                               // base-dependent absolute address: must be the address in the executable view
+      }
+      if (with_bss) {
+        Section* b = nullptr;
+        ASMJIT_PROPAGATE(code.new_section(Out(b), ".bss", SIZE_MAX, SectionFlags::kNone, 8, 1));   // no data, virtual size only: must read as zeros
+        b->set_virtual_size(40);
       }
       return Error::kOk;
     };
@@ -343,7 +355,7 @@ static void jit_addrtab_cases() {
     int want = (near_target ? 7 : 0) + (with_tail ? 1000 : 0);
     int got = fn();
     if (got != want) c.violation("reloc:jit:wrong-result", "installed function returned " + std::to_string(got) + ", expected " + std::to_string(want) + " (" + desc + ")", rp);
-    c.outcomes.insert(std::string("jit-at") + (near_target ? "n" : "f") + (with_tail ? "t" : "-"));
+    c.outcomes.insert(std::string("jit-at") + (near_target ? "n" : "f") + (with_tail ? "t" : "-") + std::to_string(rtopt));
   }
 }
 
